@@ -249,7 +249,11 @@ func c03Check(c *Ctx, v interface{}, enc string, tags []string, esc bool) (nontr
 	before := dump(v)
 	var x []byte
 	var err error
-	st, pan := protect(func() { x, err = c03Encode(v, enc, tags) })
+	var gw []string
+	st, pan := protect(func() { gw = globalWrites(func() { x, err = c03Encode(v, enc, tags) }) })
+	if len(gw) > 0 {
+		c.Count("encodes_that_wrote_package_state", 1) // informational, see C01
+	}
 	c.S.Transitions++
 	c.S.Validated++
 	if pan {
